@@ -23,10 +23,21 @@ def install_common(u):
 
 
 def _lattice_of(interp, m):
+    """Lattice(matrix): the registered symbolic lattice - provided the matrix handed in IS that lattice's matrix (same array, or proved equal
+    entry by entry); anything else is a different cell."""
     lat = interp.ctx.ghost.get('lattice_obj')
     if lat is None:
         raise Exception('no lattice registered for this unit')
-    return lat
+    own = lat.get('matrix')
+    if m is own or (isinstance(m, STensor) and getattr(m, 'view_of', None) is own):
+        return lat
+    if isinstance(m, STensor) and m.ndim == 2:
+        i, j = z3.Ints('lm_i lm_j')
+        interp.ctx.oblige(f'{interp.cur_func}.Lattice(matrix)-is-built-from-the-trajectory-cell', z3.ForAll([i, j], z3.Implies(
+            z3.And(i >= 0, i < 3, j >= 0, j < 3), m.at(i, j) == own.at(i, j))), kind='pre')
+        return lat
+    from verif.engine.core import Unsupported
+    raise Unsupported('Lattice(...) of something that is not the cell matrix')
 
 
 def sym_trajectory(ctx, name='traj', species_symbols=None):
